@@ -50,6 +50,15 @@ def generate(scratch):
     out.append("/-- `packaging.MaxImportRecursionDepth` (constant in packageinfo.go). -/")
     out.append(f"def maxImportDepth : Nat := {m.group(1) if m else 0}")
     out.append("")
+    tsrc = open(os.path.join(vlib.REPO, "tooling", "pkg", "dsl", "types.go")).read()
+    cands = sorted(set(PRIMS) | set(re.findall(r'"(\w+)="', tsrc)) | {"byte", "int", "uint", "long", "ulong", "float", "double", "complexfloat",
+                                                                      "complexdouble", "integer", "str", "char", "short", "float16", "uint128", "Int32", "INT"})
+    al = json.loads(subprocess.run([inproc, "primalias"], input="\n".join(cands).encode(), stdout=subprocess.PIPE, check=True).stdout)
+    t["primalias"] = al
+    out.append("/-- what each candidate type name resolves to as a primitive (resolveTypes executed on a one-field record). -/")
+    out.append("def primAliasTab : List (String × Option Prim) := [")
+    out.append(",\n".join(f"  ({json.dumps(n)}, {'some ' + lean_prim(al[n]) if al.get(n) in PRIMS else 'none'})" for n in cands) + "]")
+    out.append("")
     out.append("end Yardl.Generated")
     with open(os.path.join(gen_dir, "Tables.lean"), "w") as f:
         f.write("\n".join(out) + "\n")
